@@ -1,15 +1,28 @@
-//! Verification models of std::collections::{HashMap, HashSet}: heap-free association arrays.
-//! Lookup contract modelled: an entry is found iff hash(k)==hash(q) && k==q.
+//! Verification models of std::collections::{HashMap, HashSet}: heap-free association arrays with tombstones.
+//! Lookup contract modelled: an entry is found iff hash(k)==hash(q) && k==q (so an Eq/Hash inconsistency of the key type
+//! is observable, as with a real hash table: unequal hashes => not found).
+//! Iteration order: slot order (deterministic) unless `set_symbolic_order(true)` was called, in which case
+//! `HashSet::into_iter` yields its elements in an order chosen by the solver (DESIGN C16).
+//!
+//! CBMC note: all array accesses use concrete indices under symbolic guards (no symbolic-offset pointers); the hasher
+//! uses xor/rotate only (free in SAT).
 use ::std::borrow::Borrow;
 use ::std::hash::{BuildHasher, Hash, Hasher};
 pub const CAP: usize = 12;
 
+static mut SYMBOLIC_ORDER: bool = false;
+static mut CONST_HASH: bool = false;
+/// Harness switch: make `HashSet::into_iter` order solver-chosen.
+pub fn set_symbolic_order(on: bool) { unsafe { SYMBOLIC_ORDER = on; } }
+/// Harness switch: all keys hash to the same value (forces every lookup to rely on `Eq`).
+pub fn set_const_hash(on: bool) { unsafe { CONST_HASH = on; } }
+
 #[derive(Clone, Default, Debug)]
 pub struct RandomState;
 pub struct KHasher(u64);
-impl KHasher { #[inline] fn mix(&mut self, x: u64) { self.0 = (self.0.rotate_left(5) ^ x).wrapping_add(0x9E3779B97F4A7C15); } }
+impl KHasher { #[inline] fn mix(&mut self, x: u64) { self.0 = (self.0 ^ x).rotate_left(7) ^ 0x9E37_79B9_7F4A_7C15; } }
 impl Hasher for KHasher {
-  #[inline] fn finish(&self) -> u64 { self.0 }
+  #[inline] fn finish(&self) -> u64 { if unsafe { CONST_HASH } { 0 } else { self.0 } }
   #[inline] fn write(&mut self, bytes: &[u8]) { let mut i = 0; while i < bytes.len() { self.mix(bytes[i] as u64); i += 1; } }
   #[inline] fn write_u8(&mut self, i: u8) { self.mix(i as u64) }
   #[inline] fn write_u16(&mut self, i: u16) { self.mix(i as u64) }
@@ -34,61 +47,90 @@ impl<K: ::std::fmt::Debug, V: ::std::fmt::Debug, S> ::std::fmt::Debug for HashMa
 impl<K, V, S> HashMap<K, V, S> {
   pub fn len(&self) -> usize { self.len }
   pub fn is_empty(&self) -> bool { self.len == 0 }
-  pub fn clear(&mut self) { let mut i = 0; while i < self.len { self.e[i] = None; i += 1; } self.len = 0; }
-  pub fn iter(&self) -> MapIter<'_, K, V> { MapIter { e: &self.e, i: 0, len: self.len } }
-  fn push(&mut self, h: u64, k: K, v: V) -> usize { assert!(self.len < CAP, "KMODEL-CAPACITY: HashMap"); let n = self.len; self.e[n] = Some((h, k, v)); self.len += 1; n }
-  fn val(&self, i: usize) -> &V { match &self.e[i] { Some(t) => &t.2, None => unreachable!() } }
-  fn val_mut(&mut self, i: usize) -> &mut V { match &mut self.e[i] { Some(t) => &mut t.2, None => unreachable!() } }
+  pub fn clear(&mut self) { let mut i = 0; while i < CAP { self.e[i] = None; i += 1; } self.len = 0; }
+  pub fn iter(&self) -> MapIter<'_, K, V> { MapIter { e: &self.e, i: 0 } }
+  /// Stores into the first free slot and returns a reference to the stored value.
+  fn push(&mut self, h: u64, k: K, v: V) -> &mut V {
+    assert!(self.len < CAP, "KMODEL-CAPACITY: HashMap/HashSet");
+    self.len += 1;
+    let mut k_ = 0;
+    while k_ < CAP {
+      if self.e[k_].is_none() {
+        self.e[k_] = Some((h, k, v));
+        match &mut self.e[k_] { Some(t) => return &mut t.2, None => unreachable!() }
+      }
+      k_ += 1;
+    }
+    unreachable!()
+  }
 }
-pub struct MapIter<'a, K, V> { e: &'a [Option<(u64, K, V)>; CAP], i: usize, len: usize }
+pub struct MapIter<'a, K, V> { e: &'a [Option<(u64, K, V)>; CAP], i: usize }
 impl<'a, K, V> Iterator for MapIter<'a, K, V> {
   type Item = (&'a K, &'a V);
-  fn next(&mut self) -> Option<Self::Item> { if self.i < self.len { let i = self.i; self.i += 1; self.e[i].as_ref().map(|t| (&t.1, &t.2)) } else { None } }
+  fn next(&mut self) -> Option<Self::Item> {
+    while self.i < CAP { let i = self.i; self.i += 1; if let Some(t) = &self.e[i] { return Some((&t.1, &t.2)); } }
+    None
+  }
 }
 impl<K: Eq + Hash, V, S: BuildHasher> HashMap<K, V, S> {
   fn h<Q: ?Sized + Hash>(&self, q: &Q) -> u64 { let mut h = self.s.build_hasher(); q.hash(&mut h); h.finish() }
-  fn pos<Q: ?Sized + Hash + Eq>(&self, q: &Q) -> Option<usize> where K: Borrow<Q> {
+  pub fn get<Q: ?Sized + Hash + Eq>(&self, q: &Q) -> Option<&V> where K: Borrow<Q> {
     let hq = self.h(q);
     let mut i = 0;
-    while i < self.len { if let Some(t) = &self.e[i] { if t.0 == hq && t.1.borrow() == q { return Some(i); } } i += 1; }
+    while i < CAP { if let Some(t) = &self.e[i] { if t.0 == hq && t.1.borrow() == q { return Some(&t.2); } } i += 1; }
     None
   }
-  pub fn get<Q: ?Sized + Hash + Eq>(&self, q: &Q) -> Option<&V> where K: Borrow<Q> { match self.pos(q) { Some(i) => Some(self.val(i)), None => None } }
-  pub fn get_mut<Q: ?Sized + Hash + Eq>(&mut self, q: &Q) -> Option<&mut V> where K: Borrow<Q> { match self.pos(q) { Some(i) => Some(self.val_mut(i)), None => None } }
-  pub fn contains_key<Q: ?Sized + Hash + Eq>(&self, q: &Q) -> bool where K: Borrow<Q> { self.pos(q).is_some() }
+  pub fn get_mut<Q: ?Sized + Hash + Eq>(&mut self, q: &Q) -> Option<&mut V> where K: Borrow<Q> {
+    let hq = self.h(q);
+    let mut i = 0;
+    while i < CAP {
+      let hit = match &self.e[i] { Some(t) => t.0 == hq && t.1.borrow() == q, None => false };
+      if hit { match &mut self.e[i] { Some(t) => return Some(&mut t.2), None => unreachable!() } }
+      i += 1;
+    }
+    None
+  }
+  pub fn contains_key<Q: ?Sized + Hash + Eq>(&self, q: &Q) -> bool where K: Borrow<Q> { self.get(q).is_some() }
   pub fn insert(&mut self, k: K, v: V) -> Option<V> {
-    match self.pos(&k) {
-      Some(i) => Some(::std::mem::replace(self.val_mut(i), v)),
+    match self.get_mut(&k) {
+      Some(slot) => Some(::std::mem::replace(slot, v)),
       None => { let h = self.h(&k); self.push(h, k, v); None }
     }
   }
   pub fn remove<Q: ?Sized + Hash + Eq>(&mut self, q: &Q) -> Option<V> where K: Borrow<Q> {
-    match self.pos(q) {
-      Some(i) => { let t = self.e[i].take(); self.len -= 1; if i != self.len { self.e[i] = self.e[self.len].take(); } t.map(|t| t.2) }
-      None => None
+    let hq = self.h(q);
+    let mut i = 0;
+    while i < CAP {
+      let hit = match &self.e[i] { Some(t) => t.0 == hq && t.1.borrow() == q, None => false };
+      if hit { self.len -= 1; return self.e[i].take().map(|t| t.2); }
+      i += 1;
     }
+    None
   }
   pub fn entry(&mut self, k: K) -> Entry<'_, K, V, S> {
-    match self.pos(&k) {
-      Some(i) => Entry::Occupied(OccupiedEntry { m: self, i }),
-      None => Entry::Vacant(VacantEntry { m: self, k }),
+    // two-phase to satisfy the borrow checker without symbolic indices
+    if self.contains_key(&k) {
+      match self.get_mut(&k) { Some(v) => Entry::Occupied(OccupiedEntry { v, _p: ::std::marker::PhantomData }), None => unreachable!() }
+    } else {
+      Entry::Vacant(VacantEntry { m: self, k })
     }
   }
 }
 pub enum Entry<'a, K, V, S = RandomState> { Occupied(OccupiedEntry<'a, K, V, S>), Vacant(VacantEntry<'a, K, V, S>) }
-pub struct OccupiedEntry<'a, K, V, S = RandomState> { m: &'a mut HashMap<K, V, S>, i: usize }
+pub struct OccupiedEntry<'a, K, V, S = RandomState> { v: &'a mut V, _p: ::std::marker::PhantomData<(&'a K, &'a S)> }
 pub struct VacantEntry<'a, K, V, S = RandomState> { m: &'a mut HashMap<K, V, S>, k: K }
 impl<'a, K: Eq + Hash, V, S: BuildHasher> Entry<'a, K, V, S> {
   pub fn and_modify<F: FnOnce(&mut V)>(self, f: F) -> Self {
-    match self { Entry::Occupied(o) => { f(o.m.val_mut(o.i)); Entry::Occupied(o) } v => v }
+    match self { Entry::Occupied(o) => { f(&mut *o.v); Entry::Occupied(o) } v => v }
   }
   pub fn or_insert_with<F: FnOnce() -> V>(self, f: F) -> &'a mut V {
     match self {
-      Entry::Occupied(o) => o.m.val_mut(o.i),
-      Entry::Vacant(v) => { let h = v.m.h(&v.k); let n = v.m.push(h, v.k, f()); v.m.val_mut(n) }
+      Entry::Occupied(o) => o.v,
+      Entry::Vacant(v) => { let h = v.m.h(&v.k); v.m.push(h, v.k, f()) }
     }
   }
   pub fn or_insert(self, d: V) -> &'a mut V { self.or_insert_with(|| d) }
+  pub fn or_default(self) -> &'a mut V where V: Default { self.or_insert_with(V::default) }
 }
 
 pub struct HashSet<T, S = RandomState> { m: HashMap<T, (), S> }
@@ -110,13 +152,38 @@ impl<T: Eq + Hash, S: BuildHasher> HashSet<T, S> {
   pub fn insert(&mut self, t: T) -> bool { if self.m.contains_key(&t) { false } else { self.m.insert(t, ()); true } }
   pub fn remove<Q: ?Sized + Hash + Eq>(&mut self, q: &Q) -> bool where T: Borrow<Q> { self.m.remove(q).is_some() }
 }
-pub struct SetIntoIter<T> { e: [Option<(u64, T, ())>; CAP], i: usize, len: usize }
+pub struct SetIntoIter<T> { e: [Option<(u64, T, ())>; CAP], i: usize }
 impl<T> Iterator for SetIntoIter<T> {
   type Item = T;
-  fn next(&mut self) -> Option<T> { if self.i < self.len { let i = self.i; self.i += 1; self.e[i].take().map(|t| t.1) } else { None } }
-  fn size_hint(&self) -> (usize, Option<usize>) { (self.len - self.i, Some(self.len - self.i)) }
+  fn next(&mut self) -> Option<T> {
+    while self.i < CAP { let i = self.i; self.i += 1; if let Some(t) = self.e[i].take() { return Some(t.1); } }
+    None
+  }
+  // constant hint: keeps `collect::<Vec<_>>()` at a concrete initial allocation size under CBMC
+  fn size_hint(&self) -> (usize, Option<usize>) { (0, Some(CAP)) }
 }
 impl<T, S> IntoIterator for HashSet<T, S> {
   type Item = T; type IntoIter = SetIntoIter<T>;
-  fn into_iter(self) -> Self::IntoIter { SetIntoIter { e: self.m.e, i: 0, len: self.m.len } }
+  fn into_iter(self) -> Self::IntoIter {
+    let mut e = self.m.e;
+    if unsafe { SYMBOLIC_ORDER } { permute(&mut e); }
+    SetIntoIter { e, i: 0 }
+  }
+}
+/// Applies a solver-chosen permutation (sequence of CAP-1 guarded adjacent... full: a chosen sequence of swaps).
+fn permute<X>(e: &mut [Option<X>; CAP]) {
+  #[cfg(kani)]
+  {
+    // selection-style: for each position i choose any j >= i to swap in; reaches every permutation
+    let mut i = 0;
+    while i + 1 < CAP {
+      let j: usize = kani::any();
+      kani::assume(j >= i && j < CAP);
+      let mut k = i + 1;
+      while k < CAP { if k == j { e.swap(i, k); } k += 1; }
+      i += 1;
+    }
+  }
+  #[cfg(not(kani))]
+  { let _ = e; }
 }
